@@ -1,4 +1,3 @@
-use quote::quote;
 use syn::{spanned::Spanned, Data, DeriveInput, Field, Meta};
 
 use super::{
